@@ -808,6 +808,9 @@ func (lp *linProver) lin(v ssa.Value, cx *linCtx) lin {
 // facts
 
 func (lp *linProver) condFacts(cond ssa.Value, pol bool, cx *linCtx) []linFact {
+	if vf := lp.validatorFacts(cond, pol, cx); vf != nil {
+		return vf
+	}
 	b, ok := cond.(*ssa.BinOp)
 	if !ok {
 		return nil
@@ -1859,4 +1862,182 @@ func (lp *linProver) incNonNeg(at *ssa.BinOp, v ssa.Value, ph *ssa.Phi, cx *linC
 		return false
 	}
 	return lp.proveAt(at, linConst(0), lp.lin(v, cx), cx.depth+1, cx)
+}
+
+// ---------------------------------------------------------------------------
+// validator helpers
+
+var (
+	validatorDepth   int
+	validatorProvers = map[*ssa.Function]*linProver{}
+)
+
+// validatorFacts: the branch tests the verdict of a repository "validator"
+// helper -- `if err := check(args); err != nil { return }` or `if !valid(args)
+// { return }`. On the edge on which the helper returned nil (resp. the tested
+// boolean), every guard over the helper's own parameters that dominates all of
+// its returns with that verdict holds for the arguments of the call.
+func (lp *linProver) validatorFacts(cond ssa.Value, pol bool, cx *linCtx) []linFact {
+	if validatorDepth > 1 {
+		return nil
+	}
+	var call *ssa.Call
+	wantNil, boolVal := false, pol
+	switch c := cond.(type) {
+	case *ssa.Call:
+		call = c
+	case *ssa.BinOp:
+		x, isNil, ok := nilTest(cond, pol)
+		if !ok || !isNil {
+			return nil
+		}
+		wantNil = true
+		switch v := resolve(x).(type) {
+		case *ssa.Call:
+			call = v
+		case *ssa.Extract:
+			if cc, ok := v.Tuple.(*ssa.Call); ok {
+				if sig := cc.Call.Signature(); sig != nil && v.Index == sig.Results().Len()-1 {
+					call = cc
+				}
+			}
+		}
+	}
+	if call == nil || call.Call.IsInvoke() {
+		return nil
+	}
+	callee := staticCallee(call)
+	if callee == nil || callee == lp.fn || len(callee.Blocks) == 0 || !lp.p.IsRepoFn(callee) {
+		return nil
+	}
+	res := callee.Signature.Results()
+	if res.Len() == 0 {
+		return nil
+	}
+	last := res.At(res.Len() - 1).Type()
+	if wantNil {
+		if !types.Identical(last, types.Universe.Lookup("error").Type()) {
+			return nil
+		}
+	} else if res.Len() != 1 || !isBoolType(last) {
+		return nil
+	}
+	clp := validatorProvers[callee]
+	if clp == nil {
+		clp = newLinProver(lp.p, callee)
+		validatorProvers[callee] = clp
+	}
+	validatorDepth++
+	defer func() { validatorDepth-- }()
+	var common map[string]linFact
+	nRet := 0
+	bail := false
+	allInstrs(callee, func(in ssa.Instruction) {
+		r, ok := in.(*ssa.Return)
+		if !ok || bail {
+			return
+		}
+		rr := retResults(r)
+		if rr == nil {
+			return
+		}
+		v := rr[len(rr)-1]
+		if wantNil {
+			if !isNilConst(v) {
+				switch y := v.(type) {
+				case *ssa.MakeInterface:
+					return // a non-nil error
+				case *ssa.Call:
+					if calleeIs(y, "fmt", "Errorf") || calleeIs(y, "errors", "New") {
+						return
+					}
+				}
+				bail = true // may or may not be nil: no postcondition
+				return
+			}
+		} else {
+			k, isC := v.(*ssa.Const)
+			if !isC {
+				bail = true
+				return
+			}
+			if isConstBool(k, true) != boolVal {
+				return
+			}
+		}
+		nRet++
+		here := map[string]linFact{}
+		ccx := clp.newCtx(r)
+		for _, er := range clp.domEdges(r.Block()) {
+			cnd, p2, ok := edgeFact(er.b, er.i)
+			if !ok {
+				continue
+			}
+			for _, f := range clp.condFacts(cnd, p2, ccx) {
+				allParam := true
+				for a := range f.e.c {
+					if !isParamAtom(a) {
+						allParam = false
+					}
+				}
+				if allParam {
+					here[f.e.String()] = f
+				}
+			}
+		}
+		if common == nil {
+			common = here
+		} else {
+			for k := range common {
+				if _, ok := here[k]; !ok {
+					delete(common, k)
+				}
+			}
+		}
+	})
+	if bail || nRet == 0 || len(common) == 0 {
+		return nil
+	}
+	var out []linFact
+	for _, f := range common {
+		e := linConst(f.e.k)
+		okSub := true
+		for a, coef := range f.e.c {
+			var prm *ssa.Parameter
+			kind := "val"
+			switch x := a.(type) {
+			case *ssa.Parameter:
+				prm = x
+			case *lenMarker:
+				prm, _ = x.x.(*ssa.Parameter)
+				kind = "len"
+				if x.cap {
+					kind = "cap"
+				}
+			}
+			idx := -1
+			for i, q := range callee.Params {
+				if q == prm {
+					idx = i
+				}
+			}
+			if prm == nil || idx < 0 || idx >= len(call.Call.Args) {
+				okSub = false
+				break
+			}
+			arg := call.Call.Args[idx]
+			switch kind {
+			case "len":
+				e = e.addScaled(lp.lenOf(arg, cx), coef)
+			case "cap":
+				e = e.addScaled(lp.capOf(arg, cx), coef)
+			default:
+				e = e.addScaled(lp.lin(arg, cx), coef)
+			}
+		}
+		if okSub {
+			out = append(out, linFact{e, "verdict of " + callee.Name() + ": " + f.why})
+		}
+	}
+	return out
 }
